@@ -71,6 +71,14 @@ func VH_C11_program() {
 	r := p.r
 	// which statements of the template are symbolic in this job (the others are off)
 	mask := vx.Param("mask")
+	// the two group prefixes (default "/g" and "/h"; jobs also use prefixes that share characters)
+	G, H := vx.Param("g1"), vx.Param("g2")
+	if G == "" {
+		G = "/g"
+	}
+	if H == "" {
+		H = "/h"
+	}
 	stmt := 0
 	on := func() bool {
 		i := stmt
@@ -98,24 +106,24 @@ func VH_C11_program() {
 		}
 	}
 	g1, g1ids := p.list(nh())
-	r.Group("/g", func() {
+	r.Group(G, func() {
 		if on() { // 1
 			hs, ids := p.list(1)
 			r.Post("/p2", hs...)
-			p.expect("POST", "/g/p2", [][]int{g1ids}, ids)
+			p.expect("POST", G+"/p2", [][]int{g1ids}, ids)
 		}
 		if on() { // 2
 			autoHead = !autoHead
 			r.AutoHead(autoHead)
 		}
 		g2, g2ids := p.list(nh())
-		r.Group("/h", func() {
+		r.Group(H, func() {
 			if on() { // 3
 				hs, ids := p.list(1)
 				r.Get("/p3", hs...)
-				p.expect("GET", "/g/h/p3", [][]int{g1ids, g2ids}, ids)
+				p.expect("GET", G+H+"/p3", [][]int{g1ids, g2ids}, ids)
 				if autoHead {
-					p.expect("HEAD", "/g/h/p3", [][]int{g1ids, g2ids}, ids)
+					p.expect("HEAD", G+H+"/p3", [][]int{g1ids, g2ids}, ids)
 				}
 			}
 			routesForm := 0
@@ -126,20 +134,20 @@ func VH_C11_program() {
 			case 1:
 				hs, ids := p.list(1)
 				r.Routes("/p4", "GET, POST", hs...)
-				p.expect("GET", "/g/h/p4", [][]int{g1ids, g2ids}, ids)
-				p.expect("POST", "/g/h/p4", [][]int{g1ids, g2ids}, ids)
+				p.expect("GET", G+H+"/p4", [][]int{g1ids, g2ids}, ids)
+				p.expect("POST", G+H+"/p4", [][]int{g1ids, g2ids}, ids)
 			case 2:
 				hs, ids := p.list(1)
 				args := append([]Handler{"POST"}, hs...)
 				r.Routes("/p4", "GET", args...)
-				p.expect("GET", "/g/h/p4", [][]int{g1ids, g2ids}, ids)
-				p.expect("POST", "/g/h/p4", [][]int{g1ids, g2ids}, ids)
+				p.expect("GET", G+H+"/p4", [][]int{g1ids, g2ids}, ids)
+				p.expect("POST", G+H+"/p4", [][]int{g1ids, g2ids}, ids)
 			}
 			if on() { // 5
 				hs, ids := p.list(1)
 				r.Any("/p5", hs...)
 				for _, m := range vC11Methods {
-					p.expect(m, "/g/h/p5", [][]int{g1ids, g2ids}, ids)
+					p.expect(m, G+H+"/p5", [][]int{g1ids, g2ids}, ids)
 				}
 			}
 		}, g2...)
@@ -149,9 +157,9 @@ func VH_C11_program() {
 			if vx.Bool() {
 				hs, ids := p.list(1)
 				combo.Get(hs...)
-				p.expect("GET", "/g/c", [][]int{g1ids}, append(append([]int{}, cids...), ids...))
+				p.expect("GET", G+"/c", [][]int{g1ids}, append(append([]int{}, cids...), ids...))
 				if autoHead {
-					p.expect("HEAD", "/g/c", [][]int{g1ids}, append(append([]int{}, cids...), ids...))
+					p.expect("HEAD", G+"/c", [][]int{g1ids}, append(append([]int{}, cids...), ids...))
 				}
 				dup, _ := p.list(1)
 				vx.Assert(vPanics(func() { combo.Get(dup...) }), "C11: Combo refuses the same method twice")
@@ -159,12 +167,12 @@ func VH_C11_program() {
 			if vx.Bool() {
 				hs, ids := p.list(1)
 				combo.Post(hs...)
-				p.expect("POST", "/g/c", [][]int{g1ids}, append(append([]int{}, cids...), ids...))
+				p.expect("POST", G+"/c", [][]int{g1ids}, append(append([]int{}, cids...), ids...))
 			}
 			if vx.Bool() {
 				hs, ids := p.list(1)
 				combo.Delete(hs...)
-				p.expect("DELETE", "/g/c", [][]int{g1ids}, append(append([]int{}, cids...), ids...))
+				p.expect("DELETE", G+"/c", [][]int{g1ids}, append(append([]int{}, cids...), ids...))
 			}
 		}
 	}, g1...)
@@ -201,7 +209,7 @@ func VH_C11_program() {
 	}
 
 	// ---- every (method, path) of the template, after the whole program ran
-	paths := []string{"/p1", "/g/p2", "/g/h/p3", "/g/h/p4", "/g/h/p5", "/g/c", "/p7", "/tc", "/p2", "/h/p3", "/g/p3", "/c", "/g/tc"}
+	paths := []string{"/p1", G + "/p2", G + H + "/p3", G + H + "/p4", G + H + "/p5", G + "/c", "/p7", "/tc", "/p2", H + "/p3", G + "/p3", "/c", G + "/tc"}
 	allOK := true
 	for _, path := range paths {
 		for _, m := range vC11Methods {
